@@ -17,6 +17,12 @@ SCRATCH_ROOT = os.environ.get('VERIF_SCRATCH', '/var/tmp/pnverif')
 MPI_INC = '/usr/lib/x86_64-linux-gnu/openmpi/include'
 ALLOWED_AXIOMS = {'propext', 'Classical.choice', 'Quot.sound'}
 NPROC = os.cpu_count() or 4
+# OpenMPI 4.1.4's default MPI-IO component (OMPIO, fcoll dynamic/vulcan) returns wrong data for a collective
+# read in which one rank's request ends exactly at end-of-file (reproduced with a 20-line pure MPI-IO
+# program, no PnetCDF involved: 3 ranks read_at_all 8/12/4 bytes of a 524-byte file -> the rank reading up to
+# EOF gets zeros for its last element).  ROMIO is correct.  All harness runs therefore use ROMIO, so that an
+# MPI library defect is not reported as a PnetCDF violation (DESIGN.md, "False alarms corrected").
+os.environ.setdefault('OMPI_MCA_io', 'romio321')
 
 SRC_EXT = ('.c', '.h', '.m4', '.am', '.in', '.y', '.l', '.inc', '.f', '.f90', '.F90', '.cpp', '.hpp', '.ac', '.sh', '.fh', '.def')
 
